@@ -200,7 +200,14 @@ func finish(r *report.Run, us []*unit, results []*unitResult, deaths []deathRec,
 				defer wg.Done()
 				sem <- struct{}{}
 				defer func() { <-sem }()
-				died, tail := rerunAlone(g.first.Unit, g.first.Case, tier, target, 5, i)
+				n := 5
+				if g.first.Hung {
+					n = 2 // each re-execution of a hang costs the whole single-case budget
+				}
+				died, tail := rerunAlone(g.first.Unit, g.first.Case, tier, target, n, i)
+				if g.first.Hung && died == n {
+					died = 5
+				}
 				confs[i] = conf{died, tail}
 			}(i, dgs[gk])
 		}
@@ -212,10 +219,13 @@ func finish(r *report.Run, us []*unit, results []*unitResult, deaths []deathRec,
 				continue
 			}
 			why := deathReason(confs[i].tail)
+			if g.first.Hung {
+				why = "no-return"
+			}
 			cs := g.cs
 			k := fmt.Sprintf("%s|%02x|%s|%s|%s|%s", cs.Reactor, cs.Ch, cs.Msg, cs.Field, cs.Class, "process-death:"+why)
 			groups[k] = &vgroup{Reactor: cs.Reactor, Msg: cs.Msg, Field: cs.Field, Class: cs.Class, Oracle: "process-death:" + why, Ch: cs.Ch, Kind: cs.Kind, States: g.states, Peers: g.peers,
-				What: "the node process dies (5/5 re-executions in fresh processes): " + short(firstLines(confs[i].tail, 3), 400), Case: cs, Family: g.fam, Count: g.count}
+				What: deathWhat(g.first.Hung) + short(firstLines(confs[i].tail, 3), 400), Case: cs, Family: g.fam, Count: g.count}
 		}
 		r.Set("worker_deaths", len(deaths))
 	}
@@ -279,6 +289,8 @@ func finish(r *report.Run, us []*unit, results []*unitResult, deaths []deathRec,
 	r.Set("contained_panics", containedTotal)
 	r.Set("contained_panic_sites", contained)
 	r.Set("cases_with_rejection_expected", notes["rejection-expected"])
+	r.Set("gossip_routine_runs", notes["gossip-runs"])
+	r.Set("gossip_messages_sent", notes["gossip-messages-sent"])
 	r.Set("cases", cases)
 	r.Set("cases_decoded_to_a_message", decoded)
 	r.Set("node_builds", builds)
@@ -320,6 +332,7 @@ func finish(r *report.Run, us []*unit, results []*unitResult, deaths []deathRec,
 		r.Require(stages["ev:added-to-pool"] > 0, "no evidence ever entered the pool")
 		r.Require(stages["pex:addresses-added"] > 0, "no address ever entered the address book")
 		r.Require(stages["conn:delivered"] > 0, "connection framing never delivered a message")
+		r.Require(notes["gossip-runs"] > 1000 && notes["gossip-messages-sent"] > 1000, "the gossip routines hardly ran / sent nothing")
 		r.Require(notes["rejection-expected"] > 100, "the rejection oracle was applied to fewer than 100 cases")
 		r.Require(stages["roundtrip-ok"] >= 24, "fewer than 24 message types went through the encode/decode round trip")
 	}
@@ -339,6 +352,13 @@ func finish(r *report.Run, us []*unit, results []*unitResult, deaths []deathRec,
 		os.Exit(3)
 	}
 	r.Finish()
+}
+
+func deathWhat(hung bool) string {
+	if hung {
+		return "the delivery does not return: the worker printed nothing for the whole budget and was killed (reproduced in fresh processes) "
+	}
+	return "the node process dies (5/5 re-executions in fresh processes): "
 }
 
 func firstLines(s string, n int) string {
@@ -379,6 +399,7 @@ func rerunAlone(unitIdx, caseIdx int, tier string, target int, n int, slot int) 
 		if err != nil {
 			return 0, err.Error()
 		}
+		wp.hangLimit = hangLimitAlone
 		_, _, ok := wp.request(unitIdx, 0, caseIdx, nil)
 		if !ok {
 			died++
@@ -412,7 +433,9 @@ func replayMain(r *report.Run) {
 		os.Exit(2)
 	}
 	fmt.Fprintf(wp.in, "R %s\n", tmp.Name())
-	if !wp.out.Scan() {
+	wp.hangLimit = hangLimitAlone
+	line := wp.nextLine()
+	if line == nil {
 		wp.cmd.Wait()
 		fmt.Printf("replay: %s/%s state=%s peer=%s field=%s (%s): the worker process DIED: %s\n", cs.Reactor, cs.Msg, cs.State, cs.Peer, cs.Field, cs.Desc, short(firstLines(wp.stderr.String(), 4), 600))
 		fmt.Println("replay: still violates")
@@ -424,7 +447,7 @@ func replayMain(r *report.Run) {
 		Alloc     uint64
 		Viols     []violT
 	}
-	json.Unmarshal(wp.out.Bytes(), &o)
+	json.Unmarshal(line, &o)
 	wp.stop()
 	fmt.Printf("replay: %s/%s state=%s peer=%s channel=0x%02x field=%s (%s)\n", cs.Reactor, cs.Msg, cs.State, cs.Peer, cs.Ch, cs.Field, cs.Desc)
 	fmt.Printf("replay: stage=%s alloc=%d bytes contained-panic=%q\n", o.Stage, o.Alloc, o.Contained)
